@@ -39,6 +39,8 @@ def var_bounds(kinds, tight=False):
             lb.append(-1.0e6); ub.append(2.0e6)
         elif k == "bigupper":
             lb.append(NINF); ub.append(1.0e6)
+        elif k == "narrowbox":   # not degenerate, but narrower than the activity tolerance
+            lb.append(0.25 if j % 2 == 0 else -0.5); ub.append((0.25 if j % 2 == 0 else -0.5) + 5e-9)
         elif k == "intbox":      # integral bounds; a spec with only such variables hands INTEGER-typed bound arrays to Problem.__init__
             lb.append(-1.0 if j % 2 == 0 else -3.0); ub.append(3.0 if j % 2 == 0 else 2.0)
         else:
